@@ -713,3 +713,78 @@ fn c08_ref_route_aligned_owned_vs_view() {
 fn c08_ref_route_plain_owned_vs_view() {
     ref_handler_paths::<false>();
 }
+
+// ===========================================================================
+// C08: the empty slice through the borrowing bulk route's decoder
+// ===========================================================================
+fn empty_to_ref_route<T: beve::BeveTypedSlice + serde::Serialize>() {
+    let empty: Vec<T> = Vec::new();
+    // the generic (serde) encoder's empty array
+    match Message::builder().query_str("/v").body_beve(&empty) {
+        Ok(b) => {
+            let m = b.build();
+            kani::cover!(m.body.len() == 2);
+            match decode_typed_slice_ref_body::<T>(&m.body) {
+                Ok(s) => {
+                    assert!(s.as_slice().is_empty());
+                    std::mem::forget(s);
+                }
+                Err(ref _e) => assert!(false, "the borrowing route's decoder rejects the generic encoder's empty array"),
+            }
+            match decode_typed_slice_ref_param::<T>(m.header.body_format, &m.body, || Message::builder().build()) {
+                Ok(Ok(s)) => {
+                    assert!(s.as_slice().is_empty());
+                    std::mem::forget(s);
+                }
+                _ => assert!(false, "the borrowing route refuses the generic encoder's empty array"),
+            }
+            std::mem::forget(m);
+        }
+        Err(ref _e) => assert!(false, "generic encoder failed on the empty vector"),
+    }
+    // the bulk encoder's empty array
+    let b = Message::builder().query_str("/v").body_typed_slice::<T>(&empty).build();
+    match decode_typed_slice_ref_body::<T>(&b.body) {
+        Ok(s) => {
+            assert!(s.as_slice().is_empty());
+            std::mem::forget(s);
+        }
+        Err(ref _e) => assert!(false, "the borrowing route's decoder rejects the bulk encoder's empty array"),
+    }
+    std::mem::forget(b);
+    std::mem::forget(empty);
+}
+
+//@ name: c08_empty_to_ref_route_f64
+//@ prop: C08
+//@ tier: quick
+//@ clause: the empty slice: the borrowing bulk route's decoder reads the generic (serde) encoder's output for an empty vector of f64, and the bulk encoder's
+//@ funcs: MessageBuilder::body_beve (beve::to_vec, the real serde walk); server::decode_typed_slice_ref_body; server::decode_typed_slice_ref_param; message::read_typed_slice_body; MessageBuilder::body_typed_slice
+//@ symbolic: none -- the empty slice is one point of the input space
+//@ bounds: the empty slice; element type f64; plain (unpadded) wire forms
+//@ oracle: Ok(empty) from both encoders
+//@ stubs: alloc::fmt::format -> empty String
+//@ replay: playback
+#[kani::proof]
+#[kani::stub(std::fmt::format, crate::verif_common::format_stub)]
+#[kani::unwind(20)]
+fn c08_empty_to_ref_route_f64() {
+    empty_to_ref_route::<f64>();
+}
+
+//@ name: c08_empty_to_ref_route_u8
+//@ prop: C08
+//@ tier: thorough
+//@ clause: as c08_empty_to_ref_route_f64 for u8
+//@ funcs: MessageBuilder::body_beve; server::decode_typed_slice_ref_body; server::decode_typed_slice_ref_param; message::read_typed_slice_body; MessageBuilder::body_typed_slice
+//@ symbolic: none -- the empty slice is one point of the input space
+//@ bounds: the empty slice; element type u8; plain (unpadded) wire forms
+//@ oracle: Ok(empty) from both encoders
+//@ stubs: alloc::fmt::format -> empty String
+//@ replay: playback
+#[kani::proof]
+#[kani::stub(std::fmt::format, crate::verif_common::format_stub)]
+#[kani::unwind(20)]
+fn c08_empty_to_ref_route_u8() {
+    empty_to_ref_route::<u8>();
+}
